@@ -574,7 +574,12 @@ class RefServer:
             except EOFError:
                 return
             try:
-                res = C.fork_call(_ref_child, (self.knobs, op), timeout=240.0)
+                if isinstance(op, dict) and op.get("op") == "__EXEC_CASE__":
+                    # a whole case, executed from this pristine process (used to confirm a violation
+                    # under the shipped cache sizes)
+                    res = ["case", C.fork_call(execute, (op["case"],), timeout=900.0)]
+                else:
+                    res = C.fork_call(_ref_child, (self.knobs, op), timeout=240.0)
             except C.HarnessError as e:
                 res = ["harness", str(e)[:300]]
             pickle.dump(res, fout)
@@ -603,6 +608,14 @@ class RefServer:
             except OSError:
                 pass
         return res
+
+    def run_case(self, case: Dict[str, Any]) -> Dict[str, Any]:
+        with os.fdopen(os.dup(self.req_w), "wb") as f:
+            pickle.dump({"op": "__EXEC_CASE__", "case": case}, f)
+        res = pickle.load(self._fin())
+        if res[0] != "case":
+            raise C.HarnessError("confirmation run failed: " + str(res[1])[:300])
+        return res[1]
 
     def _fin(self):
         if not hasattr(self, "_f"):
@@ -773,6 +786,22 @@ def execute(case: Dict[str, Any]) -> Dict[str, Any]:
                                        "detail": f"the text was a fixed point at application {fixed_at} but changed again later"})
         stats.merge(obs.stats)
         stats.merge(server.stats)
+        if violations and knobs != "default" and not case.get("_confirming"):
+            # Cache sizes are internals of the shipped tool, not configuration.  Altered sizes are used as an
+            # amplifier (an entry that can not be evicted, caches that forget at once); what they expose
+            # counts only if the same history also fails with the sizes the tool ships with.  The
+            # confirmation runs in a fresh fork of the pristine reference server.
+            confirm = server.run_case(dict(strip_case(case), knobs="default", _confirming=True, keep_going=True))
+            classes = {v["class"] for v in violations}
+            confirmed = [v for v in confirm.get("violations", []) if v["class"] in classes]
+            if confirmed:
+                stats.inc("violations_confirmed_under_shipped_cache_sizes")
+                violations = confirmed
+                case["knobs"] = "default"
+            else:
+                stats.inc("observed.violation_only_under_altered_cache_sizes")
+                stats.inc("observed.only_under_altered_cache_sizes." + violations[0]["class"])
+                violations = []
     finally:
         server.close()
     if case.get("trees"):
